@@ -10,9 +10,14 @@ from . import terms
 VERIF = os.path.dirname(os.path.dirname(os.path.dirname(os.path.abspath(__file__))))
 COQ = os.path.join(VERIF, 'coq')
 NCPU = int(os.environ.get('VERIF_JOBS', '16'))
-# coqc processes started in parallel slow each other down badly in this sandbox (kernel time
-# while loading the libraries), so the in-Coq evaluation uses few, large files
-COQ_JOBS = int(os.environ.get('VERIF_COQ_JOBS', '4'))
+# coqc processes started in parallel slow each other down badly in this sandbox unless transparent
+# huge pages are disabled for them (done below with prctl)
+COQ_JOBS = int(os.environ.get('VERIF_COQ_JOBS', '12'))
+try:
+    import ctypes
+    ctypes.CDLL(None).prctl(41, 1, 0, 0, 0)   # PR_SET_THP_DISABLE, inherited by coqc/make children (see tools/nothp)
+except Exception:
+    pass
 
 class CoqError(Exception):
     pass
@@ -156,7 +161,7 @@ def _run_file(args):
         pass
     return idx, res
 
-def eval_exprs(exprs, imports, chunk=400, timeout=1800, tag='cases'):
+def eval_exprs(exprs, imports, chunk=200, timeout=1800, tag='cases'):
     """Evaluate Gallina expressions of type obs; returns the parsed observations."""
     if not exprs:
         return []
